@@ -116,7 +116,7 @@ impl ReactCache {
 //@|     final(commands).log() == (if n == 0 { old(commands).log() }
 //@|         else { old(commands).log().push(Queued::SpawnData { entity: d, readers: n as usize }) + scoped_cmds(scoped, target, d) + wide_cmds(wide, target, d) }) }),
 //@ghost | let ghost verif_scoped = scoped_ids(&entity_reactors, target, EntityReactionType::Event(type_id_spec::<E>()));
-//@mapdefault let num = | Ok, Some
+//@mapdefault * | Ok, Some
 //@loopvar 1 it
 //@loop 1 | invariant it.seq() =~= verif_scoped, *final(commands) == *final(old(commands)),
 //@loop 1 |     commands.log() == old(commands).log().push(Queued::SpawnData { entity: data_entity, readers: num }) + scoped_cmds(verif_scoped, target, data_entity).subrange(0, it.index@ as int),
